@@ -254,3 +254,62 @@ def closure_def_of_term(term):
     if t[0] == "agg" and t[1].startswith("closure:"):
         return t[1][len("closure:"):]
     return None
+
+
+def borrowed_place(T, operand, bb, idx, depth=0):
+    """if the operand is (through moves and reborrows) `&P` / `&mut P`, the place P; else None"""
+    if depth > 8:
+        return None
+    pl = op_place(operand)
+    if pl is None:
+        return None
+    defs = T.reaching(pl, bb, idx)
+    if len(defs) != 1 or defs[0][0] != "s":
+        return None
+    _, b, i = defs[0]
+    st = T.body.blocks[b]["stmts"][i]
+    rv = st.get("rv")
+    if rv is None or st["p"] != pl:
+        return None
+    if rv["k"] == "ref":
+        p = rv["place"]
+        if len(p) >= 2 and p[1] == "*":
+            inner = borrowed_place(T, {"c": (p[0],)}, b, i, depth + 1)
+            if inner is not None:
+                return inner + p[2:]
+            return None
+        return p
+    if rv["k"] == "use" and op_place(rv["op"]):
+        return borrowed_place(T, rv["op"], b, i, depth + 1)
+    if rv["k"] == "cast" and op_place(rv["op"]):
+        return borrowed_place(T, rv["op"], b, i, depth + 1)
+    return None
+
+
+def subst_params(t, mapping, depth=0):
+    """replace ('param', n) by mapping[n] inside a term"""
+    if depth > 60:
+        return t
+    k = t[0]
+    if k == "param":
+        return mapping.get(t[1], t)
+    if k == "call":
+        fn = t[1]
+        return ("call", fn, tuple(subst_params(a, mapping, depth + 1) for a in t[2]), t[3])
+    if k == "agg":
+        return ("agg", t[1], t[2], tuple((f, subst_params(v, mapping, depth + 1)) for f, v in t[3]))
+    if k == "bin":
+        return ("bin", t[1], subst_params(t[2], mapping, depth + 1), subst_params(t[3], mapping, depth + 1))
+    if k == "un":
+        return ("un", t[1], subst_params(t[2], mapping, depth + 1))
+    if k == "cast":
+        return ("cast", t[1], t[2], subst_params(t[3], mapping, depth + 1))
+    if k in ("field", "downcast", "index", "repeat"):
+        return (k, subst_params(t[1], mapping, depth + 1)) + tuple(t[2:])
+    if k == "payload":
+        return ("payload", t[1], subst_params(t[2], mapping, depth + 1))
+    if k in ("await", "discr", "ref", "deref"):
+        return (k, subst_params(t[1], mapping, depth + 1))
+    if k == "phi":
+        return ("phi", tuple(subst_params(x, mapping, depth + 1) for x in t[1]))
+    return t
